@@ -167,6 +167,9 @@ func (dr *DecodingReader) Vector(item func(i uint64) Deserializable, fixedElemSi
 			}
 			offsets[i] = uint64(off)
 		}
+		if length > 0 && offsets[0] != length*4 {
+			return fmt.Errorf("first offset %d does not match the offsets size %d", offsets[0], length*4)
+		}
 		var prev uint64
 		for i, off := range offsets {
 			if prev > off {
